@@ -55,11 +55,11 @@ type frozenRec struct {
 }
 
 var (
-	cur     *caseData
-	inputs  map[string]inputVal
-	out     *outcome
-	frozen  []frozenRec
-	tier    int
+	cur    *caseData
+	inputs map[string]inputVal
+	out    *outcome
+	frozen []frozenRec
+	tier   int
 )
 
 type skip struct{}
